@@ -19,7 +19,7 @@ def sim_plan_st(draw, tier, ctx=None, want_absent_arms=False, max_bandits=3):
     d = draw(st.integers(1, 3))
     nb = draw(st.integers(1, max_bandits))
     bandits = []
-    same_np = draw(st.sampled_from([None, None, "Radius", "KNearest"]))   # several neighbourhood bandits, other metrics
+    same_np = draw(st.sampled_from([None, None, "Radius", "KNearest", "LSHNearest"]))   # several neighbourhood bandits, other metrics
     for i in range(nb):
         nps = gen.ALL_NP if contextual_data else [None]
         lps = gen.ALL_LP if contextual_data else list(ops.CONTEXT_FREE)
@@ -36,6 +36,11 @@ def sim_plan_st(draw, tier, ctx=None, want_absent_arms=False, max_bandits=3):
             break
         else:
             cfg["lp"] = ["UCB1", {"alpha": 1}]
+        if cfg["np"] and cfg["np"][0] in ("LSHNearest", "Radius", "KNearest") and draw(st.booleans()):
+            # the simulator re-implements these policies: give half of them a deterministic learning policy, whose
+            # reported expectations are compared bit for bit
+            cfg["lp"] = draw(st.sampled_from([["EpsilonGreedy", {"epsilon": 0}], ["UCB1", {"alpha": 1}],
+                                              ["UCB1", {"alpha": 0.5}]]))
         cfg["arms"] = list(arms)
         if i > 0 and draw(st.booleans()):
             # the same arms listed in another order: the simulator takes its arm list from the first bandit only
